@@ -107,6 +107,15 @@ def builtinChar : Builtin → Char → Bool
 
 variable {R : Type}
 
+/-- the atomicity a rule's body runs under: normal / silent rules inherit the caller's -/
+def innerAtom (ty : RuleTy) (atom : Atom) : Atom :=
+  match ty with
+  | .normal => atom
+  | .silent => atom
+  | .atomic => .atomic
+  | .compound => .compound
+  | .nonAtomic => .nonAtomic
+
 /-- The interpreter.  `ws` is the grammar's WHITESPACE rule (if any). -/
 def eval (G : R → RuleDef R) (ws : Option R) : Nat → Atom → PExpr R → St → PRes R
   | 0, _, _, _ => .fuel
@@ -137,13 +146,7 @@ def eval (G : R → RuleDef R) (ws : Option R) : Nat → Atom → PExpr R → St
       | none => .fail
     | .rule r =>
       let d := G r
-      let inner : Atom := match d.ty with
-        | .normal => atom
-        | .silent => atom
-        | .atomic => .atomic
-        | .compound => .compound
-        | .nonAtomic => .nonAtomic
-      match eval G ws fuel inner d.body st with
+      match eval G ws fuel (innerAtom d.ty atom) d.body st with
       | .ok st' toks =>
         if d.ty != .silent && atom != .atomic then .ok st' (⟨some r, st.pos, st'.pos⟩ :: toks)
         else .ok st' toks
